@@ -307,6 +307,17 @@ theorem argvSplitN_spec (data : Str) (argcmax : Nat) :
   rw [h2, Nat.zero_add, this, List.length_take]
   omega
 
+/-- what the two splitters write: the line after the call is the line before
+it with some white-space characters (for the `_n` variant: or NULs) replaced
+by NUL — same length, every other byte untouched, nothing outside the extent -/
+theorem argvSplit_writes (data : Str) (argcmax : Nat) (r : ArgvRes)
+    (h : argvSplit data argcmax = some r) : onlyTerminated r.mem data = true :=
+  argvSplitGo_mem _ _ _ _ _ h
+
+theorem argvSplitN_writes (data : Str) (argcmax : Nat) (r : ArgvRes)
+    (h : argvSplitN data argcmax = some r) : onlyTerminated r.mem data = true :=
+  argvSplitNGo_mem _ _ _ _ _ h
+
 /-! ## the shell dispatchers -/
 
 /-- all four dispatchers: on a NUL-terminated line the result is
